@@ -86,6 +86,8 @@ type childEvent struct {
 	Sample   any              `json:"sample,omitempty"`
 	Counters map[string]int64 `json:"counters,omitempty"`
 	Note     string           `json:"note,omitempty"`
+	K        string           `json:"k,omitempty"`
+	Val      string           `json:"val,omitempty"`
 }
 
 var distinctMu sync.Mutex
@@ -360,6 +362,13 @@ func (r *Run) merge(spec ChildSpec, base string) {
 				}
 			case "i":
 				r.Inconclusive("%s", ev.Note)
+			case "d":
+				r.mu.Lock()
+				if r.Data == nil {
+					r.Data = map[string][]string{}
+				}
+				r.Data[ev.K] = append(r.Data[ev.K], ev.Val)
+				r.mu.Unlock()
 			}
 		}
 		f.Close()
